@@ -166,7 +166,9 @@ CHECKS["C01"] = dict(_at_common, **{
                  "over an in-memory MySQL; full-state trace validation by TLC",
     "legs_fn": _atrb_legs(["ATRollback_Gen_C01.cfg", "ATRollback_Gen_C01S.cfg"], ["ATRollback_Gen_C01.cfg", "ATRollback_Gen_C01T.cfg"],
                           [_OC1, _OC0], [_OC1, _OC0, _OC1P, _OC0P, _NV],
-                          extra=[("null", "t_nullw", "ATRollback_Gen_C01N.cfg")]),
+                          extra=[("null", "t_nullw", "ATRollback_Gen_C01N.cfg"),
+                                 # composite keys whose values concatenate to the same text
+                                 ("compc", "t_compc", "ATRollback_Gen_C01S.cfg")]),
 })
 
 CHECKS["C09"] = dict(_at_common, **{
